@@ -58,7 +58,10 @@ type CaseC18 struct {
 	ModInPlace bool `json:"modinplace,omitempty"`
 	WholeChk   bool `json:"wholechk,omitempty"`
 	StreamTls  bool `json:"streamtools,omitempty"` // tools are streamable-only
-	Exported   bool `json:"exported,omitempty"`    // the agent is used as a node of a parent graph (ExportGraph and its options)
+	// MixTools: the tool set mixes component kinds: ta is streamable-only, tb invokable-only, tc both (in this
+	// order in the configuration); the note each tool makes and its output carry its own name
+	MixTools bool `json:"mixtools,omitempty"`
+	Exported bool `json:"exported,omitempty"` // the agent is used as a node of a parent graph (ExportGraph and its options)
 }
 
 type run18 struct {
@@ -254,6 +257,19 @@ func (t *strTool18) StreamableRun(ctx context.Context, args string, opts ...tool
 	return schema.StreamReaderFromArray([]string{o[:len(o)/2], o[len(o)/2:]}), nil
 }
 
+type bothTool18 struct{ tool18 }
+
+func (t *bothTool18) InvokableRun(ctx context.Context, args string, opts ...tool.Option) (string, error) {
+	t.note(ctx, args, opts...)
+	return toolOut18(t.name, args), nil
+}
+
+func (t *bothTool18) StreamableRun(ctx context.Context, args string, opts ...tool.Option) (*schema.StreamReader[string], error) {
+	t.note(ctx, args, opts...)
+	o := toolOut18(t.name, args)
+	return schema.StreamReaderFromArray([]string{o[:len(o)/2], o[len(o)/2:]}), nil
+}
+
 func wholeChecker(ctx context.Context, sr *schema.StreamReader[*schema.Message]) (bool, error) {
 	defer sr.Close()
 	for {
@@ -303,6 +319,7 @@ func genC18(t *rapid.T) CaseC18 {
 	c.Modifier = rapid.IntRange(0, 3).Draw(t, "modifier") == 0
 	c.ModInPlace = c.Modifier && rapid.Bool().Draw(t, "modInPlace")
 	c.StreamTls = rapid.IntRange(0, 3).Draw(t, "streamTools") == 0
+	c.MixTools = !c.StreamTls && rapid.IntRange(0, 2).Draw(t, "mixTools") == 0
 	c.Exported = rapid.IntRange(0, 3).Draw(t, "exported") == 0
 	return c
 }
@@ -391,10 +408,13 @@ func checkC18(c CaseC18) (*vkit.Failure, vkit.Meta) {
 	f := vkit.Guard("panic-escaped", func() *vkit.Failure {
 		ctx := context.Background()
 		cfg := &react.AgentConfig{ToolCallingModel: &model18{c: c}, MaxStep: c.MaxStep}
-		for _, n := range c.Tools {
-			if c.StreamTls {
+		for i, n := range c.Tools {
+			switch {
+			case c.MixTools && i%3 == 2:
+				cfg.ToolsConfig.Tools = append(cfg.ToolsConfig.Tools, &bothTool18{tool18{name: n, stream: true}})
+			case c.StreamTls || (c.MixTools && i%3 == 0):
 				cfg.ToolsConfig.Tools = append(cfg.ToolsConfig.Tools, &strTool18{tool18{name: n, stream: true}})
-			} else {
+			default:
 				cfg.ToolsConfig.Tools = append(cfg.ToolsConfig.Tools, &invTool18{tool18{name: n}})
 			}
 		}
